@@ -461,15 +461,129 @@ def shard_special(spec, R):
     R.sample({"special": "digamma/gammainc/ndtri", "points": int(n), "example": {"digamma(0.3)": float(nb_digamma(np.array([0.3]))[0])}})
 
 
+def _code_objects(mod):
+    """Every code object defined in a module: functions, methods, the sources behind @njit / lazycompile wrappers."""
+    import types as _t
+
+    seen, out = set(), []
+
+    def add(code):
+        if id(code) in seen:
+            return
+        seen.add(id(code))
+        out.append(code)
+        for c in code.co_consts:
+            if isinstance(c, _t.CodeType):
+                add(c)
+
+    def visit(obj, depth=0):
+        for cand in (obj, getattr(obj, "py_func", None), getattr(obj, "__wrapped__", None), getattr(getattr(obj, "__wrapped__", None), "py_func", None), getattr(obj, "fget", None)):
+            code = getattr(cand, "__code__", None)
+            if isinstance(code, _t.CodeType) and (getattr(cand, "__module__", None) or "").startswith("hdc."):
+                add(code)
+        if isinstance(obj, type) and depth < 2 and (obj.__module__ or "").startswith("hdc."):
+            for v in vars(obj).values():
+                visit(v, depth + 1)
+
+    for v in list(vars(mod).values()):
+        visit(v)
+    return out
+
+
+def _names(code, opnames):
+    import dis
+    import types as _t
+
+    out = set()
+    for ins in dis.get_instructions(code):
+        if ins.opname in opnames:
+            out.add(ins.argval)
+    for c in code.co_consts:
+        if isinstance(c, _t.CodeType):
+            out |= _names(c, opnames)
+    return out
+
+
+def shard_globals(spec, R):
+    """Frozen-global monitor.  Numba copies the value of a module global into the machine code when a kernel is compiled;
+    the interpreted source reads it at every call.  The two can only part ways for a global that (a) a kernel (or one of
+    its callees) reads, (b) holds a value Numba freezes, and (c) *library code assigns at run time*.  Every such global is
+    moved after the kernel has been compiled and the compiled / interpreted pair is compared again."""
+    import importlib
+    import sys
+
+    for m in ("hdc.algo", "hdc.algo.accessors", "hdc.algo.utils", "hdc.algo.dekad", "hdc.algo.ops", "hdc.algo.ops.stats"):
+        importlib.import_module(m)
+    mods = [m for n, m in sorted(sys.modules.items()) if n.startswith("hdc.") and m is not None]
+    written = set()
+    for m in mods:
+        for code in _code_objects(m):
+            written |= _names(code, ("STORE_GLOBAL", "DELETE_GLOBAL", "STORE_ATTR"))
+    R.count("globals_modules_scanned", len(mods))
+    R.note("names_assigned_by_library_code", len(written))
+    freezable = (bool, int, float, complex, np.generic, np.ndarray)
+    rng = np.random.default_rng([spec["seed"], 131])
+    for p in PR.PROGRAMS:
+        f = shim.source_func(p.get())
+        reads, todo, seen = {}, [f], set()
+        while todo:  # the program and every hdc callee
+            g = todo.pop()
+            if id(g) in seen:
+                continue
+            seen.add(id(g))
+            for n in _names(g.__code__, ("LOAD_GLOBAL", "LOAD_NAME")):
+                v = g.__globals__.get(n)
+                if isinstance(v, freezable) and not isinstance(v, type):
+                    reads[(g.__module__, n)] = g
+                else:
+                    try:
+                        todo.append(shim.source_func(v)) if (getattr(v, "__module__", "") or "").startswith("hdc.") or hasattr(v, "py_func") else None
+                    except TypeError:
+                        pass
+        R.count("globals_programs_scanned")
+        R.count("globals_values_read_by_kernels", len(reads))
+        for (modname, n), g in sorted(reads.items(), key=lambda kv: kv[0]):
+            R.count(f"kernel_reads_global:{modname}.{n}")
+            if n not in written:
+                R.count("globals_read_only_constants")
+                continue
+            R.count("globals_assigned_at_run_time_and_read_by_a_kernel")
+            old = g.__globals__[n]
+            dtype = p.dtypes[0]
+            compare_case(R, p, dtype, "edge", p.gen(rng, "edge", dtype), deep=True)  # compiled now (value frozen), pair agrees
+            if isinstance(old, (bool, np.bool_)):
+                moves = [not old]
+            elif isinstance(old, np.ndarray):
+                moves = [old * 1.5 + 1]
+            else:
+                moves = [type(old)(old * 10), type(old)(old / 10) if isinstance(old, (float, np.floating)) else type(old)(old + 1), type(old)(old + 1)]
+            nv0 = len(R.violations)
+            try:
+                for mv in moves:
+                    g.__globals__[n] = mv
+                    _I.clear()
+                    for _ in range(spec.get("reps", 12)):
+                        R.count("globals_moved_pairs")
+                        compare_case(R, p, dtype, "random", p.gen(rng, "random", dtype), deep=True)
+            finally:
+                g.__globals__[n] = old
+                _I.clear()
+            if len(R.violations) > nv0:
+                R.violation(f"C13:frozen-global:{p.name}", f"{p.name} reads {modname}.{n} (= {old!r}), which library code assigns at run time: after the value moved, the compiled kernel "
+                            f"(compiled while it was {old!r}) and its interpreted source disagree", {"program": p.name, "dtype": dtype, "cls": "random", "deep": True, "args": p.gen(rng, "edge", dtype), "global": f"{modname}.{n}"})
+
+
+
 def plan(tier, seed):
     q = tier == "quick"
     specs = [{"kind": "programs", "group": g, "reps_min": 2, "reps_edge": 6 if q else 250, "reps_random": 10 if q else 700, "reps_deep": 3 if q else 40, "budget_s": 150 if q else 600} for g in range(len(GROUPS))]
     specs.append({"kind": "special", "points": 3000 if q else 10000, "mp_points": 60 if q else 400})
+    specs.append({"kind": "globals", "reps": 12 if q else 60})
     return specs
 
 
 def run_shard(spec, R):
-    {"programs": shard_programs, "special": shard_special}[spec["kind"]](spec, R)
+    {"programs": shard_programs, "special": shard_special, "globals": shard_globals}[spec["kind"]](spec, R)
 
 
 def finalize(agg, tier):
@@ -480,6 +594,8 @@ def finalize(agg, tier):
     for p in PR.PROGRAMS:
         if c.get(f"pairs_{p.name}", 0) == 0:
             out.append(f"no compiled/interpreted pair observed for {p.name}")
+    if c.get("globals_programs_scanned", 0) != 35:
+        out.append(f"frozen-global monitor scanned {c.get('globals_programs_scanned', 0)} of 35 programs")
     for k in ("special_points_digamma", "special_points_gammainc", "special_points_ndtri", "mpmath_points", "signature_checks", "deep_pairs"):
         if c.get(k, 0) == 0:
             out.append(f"monitor {k} never evaluated")
